@@ -27,7 +27,7 @@ func ruleC03(c *Ctx) {
 	c.floor("FIELDMAP-W", 12)
 	c.floor("LAYOUT", 5)
 	c.floor("WRAPPERS", 2)
-	c.floor("NOSHARED", 1)
+	c.floor("NOSHARED", 3)
 	w := c.W
 	build := w.fn("io/genbank", "Build")
 	bfs := w.fn("io/genbank", "BuildFeatureString")
@@ -42,6 +42,12 @@ func ruleC03(c *Ctx) {
 	checkMapOrder(c, "MAPORDER", fam)
 	checkNoShared(c, "NOSHARED", "Build and helpers", fam, map[string]string{})
 	writerLoopHazards(c, "FIELDMAP-W", fam)
+	for _, root := range []*ssa.Function{build, c.W.fn("io/genbank", "BuildFeatureString"), c.W.fn("io/genbank", "BuildLocationString")} {
+		if root != nil {
+			ws := apiArgWrites(root)
+			c.check(len(ws) == 0, "NOSHARED", root.Name()+" does not modify the record it writes", root.Pos(), "no store reaches memory the caller still holds", "writing changes the record: "+strings.Join(ws, "; ")+": a second write, or a later GetSequence, sees altered data")
+		}
+	}
 	// feature locations are part of the record: the location printer and parser rules of C02 are prerequisites
 	if bl, pl := c.W.fn("io/genbank", "BuildLocationString"), c.W.fn("io/genbank", "parseLocation"); bl != nil {
 		checkLocationPrinter(c, bl, pl)
